@@ -75,6 +75,8 @@ class NearestBetterClustering:
         return self.individuals[0].genome.size
 
     def _prepare_spanning_tree(self) -> None:
+        # cluster() may be called again on the same object: the tree is rebuilt from scratch.
+        self.tree = Tree()
         root = self.individuals[0]
         self.tree.create_node(
             identifier=get_individual_id(root),
